@@ -526,7 +526,7 @@ def run_a(ctx, case) -> None:
     cnode = int(case['client_node'])
     snode = 1 - cnode
     loop = vloop.new_loop()
-    s: dict = {'phase': 'setup', 'recv': {}, 'written': {'c2s': {}, 's2c': {}}}
+    s: dict = {'phase': 'setup', 'recv': {}, 'written': {}, 'draining': {}}
     # expected stream per (direction, channel)
     expected: dict = {}
     for d in ops:
@@ -601,10 +601,11 @@ def run_a(ctx, case) -> None:
                     k, n = o[1], o[2]
                     chans[k].write(pattern((0 if d == 'c2s' else 100) + k, pos.get(k, 0), n))
                     pos[k] = pos.get(k, 0) + n
+                    s['written'][(d, k)] = pos[k]
                 elif o[0] == 'd':
-                    s['draining'] = (d, o[1])
+                    s['draining'][d] = o[1]
                     await chans[o[1]].drain()
-                    s.pop('draining', None)
+                    s['draining'].pop(d, None)
                 elif o[0] == 'z':
                     await asyncio.sleep(o[1] / 1000.0)
 
@@ -613,9 +614,9 @@ def run_a(ctx, case) -> None:
         s['phase'] = 'drain'
         for d in ('c2s', 's2c'):
             for k, ch in enumerate(s['chans'][d]):
-                s['draining'] = (d, k)
+                s['draining'][d] = k
                 await ch.drain()
-        s.pop('draining', None)
+                s['draining'].pop(d, None)
         s['phase'] = 'deliver'
         check_done()
         await delivered.wait()
@@ -670,7 +671,9 @@ def run_a(ctx, case) -> None:
             incomplete = []
             for key in sorted(expected):
                 got = b''.join(s['recv'].get(key, []))
-                v = stream_verdict(expected[key], got)
+                # judged against what was really handed to write() (all of it when the run completed)
+                exp_now = expected[key] if outcome == 'done' else expected[key][: s['written'].get(key, 0)]
+                v = stream_verdict(exp_now, got)
                 if v is None:
                     continue
                 if v[0] == 'mismatch':
@@ -679,11 +682,16 @@ def run_a(ctx, case) -> None:
                     incomplete.append((key, v[1]))
             # -- progress
             if outcome != 'done' or incomplete:
-                d, k = (incomplete[0][0] if incomplete else s.get('draining', ('c2s', 0)))
+                if incomplete:
+                    d, k = incomplete[0][0]
+                elif s['draining']:
+                    d, k = sorted(s['draining'].items())[0]
+                else:
+                    d, k = 'c2s', 0
                 sender = cnode if d == 'c2s' else snode
                 ch = s['chans'][d][k] if k < len(s['chans'][d]) else None
                 info = analyses[sender][0].get(getattr(ch, 'destination_cid', None)) if ch is not None else None
-                exp = expected[(d, k)]
+                exp = expected[(d, k)] if outcome == 'done' else expected[(d, k)][: s['written'].get((d, k), 0)]
                 if info is not None and len(info.stream) < len(exp):
                     state = 'sender_idle_holding_credits' if info.credits > 0 else 'sender_never_got_credits_back'
                     detail = (f'{len(info.stream)} of {len(exp)} bytes put into K-frames, ledger shows {info.credits} '
@@ -691,9 +699,12 @@ def run_a(ctx, case) -> None:
                 elif incomplete:
                     state = 'sent_but_not_delivered'
                     detail = f'all {len(exp)} bytes were sent, {incomplete[0][1]} never reached the sink'
-                else:
+                elif s['draining']:
                     state = 'drain_never_completes'
-                    detail = 'every byte was delivered but drain() is still waiting'
+                    detail = 'every byte written so far was delivered but drain() is still waiting'
+                else:
+                    state = 'no_progress'
+                    detail = 'nothing is outstanding, yet the run did not complete'
                 fail(f'A/{variant}/progress/{state}',
                      f'{outcome} in phase {s["phase"]}: {d} channel {k}: {detail}')
         ctx.case(case, nontrivial, labels,
@@ -989,8 +1000,8 @@ def run_b(ctx, case) -> None:
                 raise HarnessError('channel pairing between Bumble and the raw peer is not by index')
         s['phase'] = 'transfer'
         senders = [loop.create_task(peer.sender(ch)) for ch in peer.chans]
-        wpos = {k: 0 for k in range(n)}
-        spos = {k: 0 for k in range(n)}
+        wpos = s['wpos'] = {k: 0 for k in range(n)}
+        spos = s['spos'] = {k: 0 for k in range(n)}
         for o in script:
             kind = o[0]
             if kind in ('w', 's', 'g', 'd') and o[1] >= n:
@@ -1090,14 +1101,18 @@ def run_b(ctx, case) -> None:
                 labels.add('B:data_both_ways')
             # -- streams
             inc_w, inc_s = [], []
+            full = outcome == 'done'
             for k in range(n):
-                v = stream_verdict(expected_w[k], bytes(peer.chans[k].rx_stream))
+                # judged against what the script really issued (all of it when the run completed)
+                exp_wk = expected_w[k] if full else expected_w[k][: s.get('wpos', {}).get(k, 0)]
+                exp_sk = expected_s[k] if full else expected_s[k][: s.get('spos', {}).get(k, 0)]
+                v = stream_verdict(exp_wk, bytes(peer.chans[k].rx_stream))
                 if v is not None:
                     if v[0] == 'mismatch':
                         fail(f'{tag}/stream/bumble_to_peer_mismatch', f'channel {k}: {v[1]}')
                     else:
                         inc_w.append((k, v[1]))
-                v = stream_verdict(expected_s[k], b''.join(s['recv'][k]))
+                v = stream_verdict(exp_sk, b''.join(s['recv'][k]))
                 if v is not None:
                     if v[0] == 'mismatch':
                         fail(f'{tag}/stream/peer_to_bumble_mismatch', f'channel {k}: {v[1]}')
@@ -1113,7 +1128,7 @@ def run_b(ctx, case) -> None:
                     state = 'bumble_idle_holding_credits' if ch.ledger > 0 else 'bumble_out_of_credits'
                     fail(f'{tag}/progress/{state}',
                          f'{outcome} in phase {s["phase"]}: channel {k} (Bumble 0x{ch.bcid:04X} <-> peer 0x{ch.pcid:04X}): '
-                         f'only {len(ch.rx_stream)} of {exp_w[k]} written bytes reached the peer as complete SDUs '
+                         f'only {len(ch.rx_stream)} of {s["wpos"][k]} written bytes reached the peer as complete SDUs '
                          f'({ch.rx_frames} K-frames, {ch.rx_bytes} frame bytes); the peer has granted {ch.ledger} credit(s) '
                          f'that Bumble does not use (ledger of credit frames delivered to Bumble\'s host: {held})')
                 elif inc_s:
@@ -1128,10 +1143,13 @@ def run_b(ctx, case) -> None:
                         detail = f'all frames were sent, {inc_s[0][1]} bytes never reached the sink'
                     fail(f'{tag}/progress/{state}',
                          f'{outcome} in phase {s["phase"]}: channel {k} (Bumble 0x{ch.bcid:04X} <-> peer 0x{ch.pcid:04X}): {detail}')
-                else:
+                elif 'draining' in s:
                     fail(f'{tag}/progress/drain_never_completes',
-                         f'{outcome} in phase {s["phase"]}: every byte was delivered but drain() of channel '
-                         f'{s.get("draining")} is still waiting')
+                         f'{outcome} in phase {s["phase"]}: every byte written so far was delivered but drain() of '
+                         f'channel {s.get("draining")} is still waiting')
+                else:
+                    fail(f'{tag}/progress/no_progress',
+                         f'{outcome} in phase {s["phase"]}: nothing is outstanding, yet the run did not complete')
         ctx.case(case, nontrivial, labels,
                  sample={'B': f'{variant}/{role}', 'cids': cids, 'bumble': bumble, 'peer': peer_spec,
                          'policy': case['policy'], 'script': script[:6]})
@@ -1163,8 +1181,8 @@ def run(ctx) -> None:
         for c in fixed_cases():
             replay(ctx, c)
     caps = [300, 2000, 2000, 6000, 20000] if ctx.quick else [300, 2000, 6000, 20000, 20000, 70000, 200000]
-    ctx.hyp('A', lambda c: run_a(ctx, c), a_case(caps), max_examples=ctx.n(640, 30000))
-    ctx.hyp('B', lambda c: run_b(ctx, c), b_case(caps), max_examples=ctx.n(800, 40000))
+    ctx.hyp('A', lambda c: run_a(ctx, c), a_case(caps), max_examples=ctx.n(640, 42000))
+    ctx.hyp('B', lambda c: run_b(ctx, c), b_case(caps), max_examples=ctx.n(800, 56000))
     for label, n in (
         ('A:le', 40), ('A:enh', 40), ('multi_frame_sdu', 80), ('credits_exhausted', 80), ('write_gt_mtu', 60),
         ('bidirectional', 60), ('delayed', 60), ('cids_differ', 60), ('cids_crossing', 10),
